@@ -265,8 +265,16 @@ impl Signature {
         };
 
         // Generate hashes for JA4_b and JA4_c (first 12 characters of SHA256)
-        let ja4_b_hash = hash12(&ja4_b_raw);
-        let ja4_c_hash = hash12(&ja4_c_raw);
+        // An empty list is represented by twelve zeros, not by the hash of the empty string
+        let hash_or_zeros = |raw: &str| {
+            if raw.is_empty() {
+                "000000000000".to_string()
+            } else {
+                hash12(raw)
+            }
+        };
+        let ja4_b_hash = hash_or_zeros(&ja4_b_raw);
+        let ja4_c_hash = hash_or_zeros(&ja4_c_raw);
 
         // JA4 hashed: ja4_a + "_" + ja4_b_hash + "_" + ja4_c_hash
         let ja4_hashed = format!("{ja4_a}_{ja4_b_hash}_{ja4_c_hash}");
